@@ -1,4 +1,6 @@
 import SamplyModel.Lemmas.AsmDecode
+import SamplyModel.Lemmas.AsmBytes
+import SamplyModel.Lemmas.C20Judge
 /-!
 # C20 — `/asm/v1` returns a gap-free, in-range instruction listing of the requested bytes
 
@@ -132,26 +134,13 @@ theorem C20_read_no_panic_any_base (img : Image) (rel size : Nat) : readRange im
       · simp
       · split <;> simp
 
-/-- **No panic in the read.** `image_base + start_address` cannot overflow `u64` when the image base leaves
-room for a 32-bit relative address (true for every object whose addresses are below 2^64 − 2^32). -/
-theorem C20_read_no_panic (img : Image) (rel size : Nat) (hrel : rel ≤ u32max)
-    (hbase : img.base + u32max ≤ u64max) : readRange img rel size ≠ .panic := by
-  unfold readRange
-  simp only
-  split
-  · omega
-  · split
-    · simp
-    · split
-      · simp
-      · split <;> simp
-
 /-- **The whole request.** Whenever `query` answers with a listing: the reported start address is the
 alignment-adjusted start, the listing is a gap-free chain from offset 0 whose offsets lie below the length
 the statement allows (`specLen`: requested size, or the enclosing function with continuation), `size` ends
 the chain (so it exceeds the last listed offset), the listing is complete, and the decoded slice has the
-length of the padded request clamped to the section. And `query` neither panics nor runs out of fuel
-(given a 32-bit start address, an image base that leaves room for it, and a slice below 4 GiB − 4). -/
+length of the padded request clamped to the section. And `query` neither panics nor runs out of fuel (for the
+panic clause with `OracleOK` alone: given a slice below 4 GiB − 4; `C20_query_tail` removes that hypothesis under
+the second oracle assumption. No hypothesis on the start address or the image base is needed since 37c4c2d8). -/
 theorem C20_query (arch : Arch) (img : Image) (sym : Option Sym) (req : Req) (dec : Nat → Dec)
     (hor : ∀ fo n, (plan arch img sym req).2.2 = .ok fo n → OracleOK n dec) :
     (∀ rel fo n items size, query arch img sym req dec = .resp rel fo n items size →
@@ -161,8 +150,7 @@ theorem C20_query (arch : Arch) (img : Image) (sym : Option Sym) (req : Req) (de
         (∀ last, items.getLast? = some last → last.off < size) ∧
         (specLen req (fnEnd sym) ≤ size ∨ dec size = .exhausted ∨ n < size)) ∧
     query arch img sym req dec ≠ .nofuel ∧
-    (req.start ≤ u32max → img.base + u32max ≤ u64max →
-      (∀ fo n, (plan arch img sym req).2.2 = .ok fo n → n + 4 ≤ u32max) →
+    ((∀ fo n, (plan arch img sym req).2.2 = .ok fo n → n + 4 ≤ u32max) →
       query arch img sym req dec ≠ .panic) := by
   have hlen := disasmLen_eq_specLen req (fnEnd sym)
   have hadj := adjust_pos arch
@@ -196,12 +184,12 @@ theorem C20_query (arch : Arch) (img : Image) (sym : Option Sym) (req : Req) (de
         (disasmLen req.start req.size req.cont (fnEnd sym) + 1) 0 (by omega)
       unfold decode
       split <;> simp_all
-  · intro hstart hbase hbig
+  · intro hbig
     unfold query plan
     simp only
     split <;> try simp
     · rename_i hrd
-      exact C20_read_no_panic img _ _ (Nat.le_trans (alignStart_le _ _) hstart) hbase hrd
+      exact C20_read_no_panic_any_base img _ _ hrd
     · rename_i fo' n' hrd
       split
       · simp
@@ -212,6 +200,398 @@ theorem C20_query (arch : Arch) (img : Image) (sym : Option Sym) (req : Req) (de
           (by omega) (disasmLen req.start req.size req.cont (fnEnd sym) + 1) 0 (Nat.zero_le _)
         unfold decode
         split <;> simp_all
+
+/-! ### Improvement round: the listing stays inside the slice, and the bytes clause as a theorem -/
+
+/-- **Inside the slice.** If the decoder also satisfies the tail assumption (`OracleTail`: *invalid* is reported
+only when a whole resynchronisation unit is left, otherwise *exhausted*), the reported `size` never exceeds the
+number of bytes that were read, and every listed instruction (decoded or undecodable) lies entirely inside the
+slice: `[off, off + step) ⊆ [0, bytesLen)`. (Without the assumption this is false: `dec 0 = invalid`,
+`bytesLen = 1`, `adjust = 4` gives `size = 4`, see the example below.) -/
+theorem C20_within_slice (adjust decodeLen bytesLen : Nat) (dec : Nat → Dec)
+    (hor : OracleOK bytesLen dec) (ht : OracleTail adjust bytesLen dec) (hadj : 1 ≤ adjust)
+    (items : List Item) (size : Nat) (h : decode adjust decodeLen bytesLen dec = .done items size) :
+    size ≤ bytesLen ∧
+    ∀ it ∈ items, ∃ s, stepAt dec adjust it = some s ∧ 1 ≤ s ∧ it.off + s ≤ bytesLen :=
+  let ⟨_, hf, hall, _⟩ := decode_facts hor ht hadj h
+  ⟨hf, hall⟩
+
+/-- **Completeness, sharp form.** Under both oracle assumptions the listing ends only when the requested length
+is covered or the decoder ran out of input exactly at `size`; the third disjunct of `C20_complete` is dead. -/
+theorem C20_complete_tail (adjust decodeLen bytesLen : Nat) (dec : Nat → Dec)
+    (hor : OracleOK bytesLen dec) (ht : OracleTail adjust bytesLen dec) (hadj : 1 ≤ adjust)
+    (items : List Item) (size : Nat) (h : decode adjust decodeLen bytesLen dec = .done items size) :
+    decodeLen ≤ size ∨ dec size = .exhausted :=
+  (decode_facts hor ht hadj h).2.2.2
+
+/-- **No panic in the decode loop, no size hypothesis beyond `u32`.** Under both oracle assumptions a slice of
+at most `u32::MAX` bytes (which is all `read_bytes_at_relative_address(_, size: u32)` can return) cannot make
+`offset += …` overflow or `&bytes[offset..]` go out of range. This removes the excluded point
+`bytesLen + adjust ≤ u32max` of `C20_no_panic`. -/
+theorem C20_no_panic_tail (adjust decodeLen bytesLen : Nat) (dec : Nat → Dec)
+    (hor : OracleOK bytesLen dec) (ht : OracleTail adjust bytesLen dec) (hlen : bytesLen ≤ u32max) :
+    decode adjust decodeLen bytesLen dec ≠ .panic :=
+  decode_no_panic_tail hor ht hlen
+
+/-- **The whole request under both oracle assumptions.** As `C20_query`, plus: `size ≤ n` (the response never
+claims more bytes than were read), every listed instruction lies inside the slice, completeness without the
+"stepped past the slice" disjunct, and `query` never panics — with no hypothesis on the request, the image or
+the slice length. -/
+theorem C20_query_tail (arch : Arch) (img : Image) (sym : Option Sym) (req : Req) (dec : Nat → Dec)
+    (hor : ∀ fo n, (plan arch img sym req).2.2 = .ok fo n → OracleOK n dec ∧ OracleTail arch.adjust n dec) :
+    (∀ rel fo n items size, query arch img sym req dec = .resp rel fo n items size →
+        rel = alignStart arch req.start ∧
+        readRange img rel (readSize (specLen req (fnEnd sym))) = .ok fo n ∧
+        chainOk dec arch.adjust (specLen req (fnEnd sym)) 0 items size = true ∧
+        size ≤ n ∧
+        (∀ it ∈ items, ∃ s, stepAt dec arch.adjust it = some s ∧ 1 ≤ s ∧ it.off + s ≤ n) ∧
+        (specLen req (fnEnd sym) ≤ size ∨ dec size = .exhausted)) ∧
+    query arch img sym req dec ≠ .nofuel ∧
+    query arch img sym req dec ≠ .panic := by
+  obtain ⟨hq1, hq2, _⟩ := C20_query arch img sym req dec (fun fo n h => (hor fo n h).1)
+  refine ⟨?_, hq2, query_no_panic_tail arch img sym req dec hor⟩
+  intro rel fo n items size hq
+  obtain ⟨hrel, hrd, hc, _, hcomp⟩ := hq1 rel fo n items size hq
+  have hplan : (plan arch img sym req).2.2 = .ok fo n := by
+    simp only [plan]
+    rw [disasmLen_eq_specLen, ← hrel]
+    exact hrd
+  obtain ⟨ho, ht⟩ := hor fo n hplan
+  obtain ⟨hf, hall⟩ := chain_within ho ht items 0 size hc (Nat.zero_le _)
+  refine ⟨hrel, hrd, hc, hf, hall, ?_⟩
+  rcases hcomp with h1 | h2 | h3
+  · exact Or.inl h1
+  · exact Or.inr h2
+  · omega
+
+/-- **The bytes clause, decode level.** Let the decoder be a function `D` of the bytes it is handed (satisfying
+`ByteDecOK`) and let `decode` run on the slice `bytes`. Then every listed row is the decoding of the slice's own
+bytes at the row's offset: a decoded row at `off` means `D (bytes.drop off) = ok len` with the instruction inside
+the slice, an undecodable row means `D (bytes.drop off) = invalid` with a whole unit inside the slice, and the
+bytes shown in that row (`shown`, mod.rs:387-399) are `bytes[off .. off+adjust]`, all `adjust` of them. -/
+theorem C20_listing_decodes_slice (adjust decodeLen : Nat) (D : ByteDec) (bytes : List UInt8)
+    (hD : ByteDecOK adjust D) (hadj : 1 ≤ adjust) (items : List Item) (size : Nat)
+    (h : decode adjust decodeLen bytes.length (decAt D bytes) = .done items size) :
+    size ≤ bytes.length ∧
+    ∀ it ∈ items,
+      (it.inv = false → ∃ len, D (bytes.drop it.off) = .ok len ∧ 1 ≤ len ∧ it.off + len ≤ bytes.length) ∧
+      (it.inv = true → D (bytes.drop it.off) = .invalid ∧ it.off + adjust ≤ bytes.length ∧
+          (shown bytes adjust it.off).length = adjust) := by
+  obtain ⟨ho, ht⟩ := decAt_oracle hadj hD bytes
+  obtain ⟨_, hf, hall, _⟩ := decode_facts ho ht hadj h
+  refine ⟨hf, ?_⟩
+  intro it hit
+  obtain ⟨s, hs, hs1, hw⟩ := hall it hit
+  constructor
+  · intro hi
+    exact ⟨s, stepAt_decoded hi hs, hs1, hw⟩
+  · intro hi
+    obtain ⟨hd, rfl⟩ := stepAt_undecodable hi hs
+    refine ⟨hd, hw, ?_⟩
+    unfold shown
+    rw [List.length_take, List.length_drop]
+    omega
+
+/-- **The bytes clause, whole request** ("The bytes decoded are the bytes of the binary at that relative
+address"). `file` is the content of the binary, `D` the decoder as a function of bytes; the only assumptions are
+`ByteDecOK` and that the file range the read returns exists in the file (`object`'s ranges lie inside the file:
+trusted). Whenever `queryB` answers with a listing for the file range `(fo, n)`:
+the range is the one `C20_bytes` describes (`readRange … = ok fo n`), the listing is a gap-free chain below
+`specLen`, `size ≤ n`, and **each row at offset `off` is the decoder's verdict on the file's bytes
+`fo+off .. fo+n`** — i.e. on the bytes of the binary at relative address `startAddress + off`, cut at the end of
+what was read: `ok len` with `off + len ≤ n` for a decoded row, `invalid` for a `.byte` row, whose shown bytes
+are the file's bytes `fo+off .. fo+off+adjust`. The listing ends at the requested length or where the decoder
+finds the file bytes from `fo+size` exhausted. And `queryB` never panics or runs out of fuel. -/
+theorem C20_query_bytes (arch : Arch) (img : Image) (sym : Option Sym) (req : Req) (D : ByteDec)
+    (file : List UInt8) (hD : ByteDecOK arch.adjust D)
+    (hfile : ∀ fo n, (plan arch img sym req).2.2 = .ok fo n → fo + n ≤ file.length) :
+    (∀ rel fo n items size, queryB arch img sym req D file = .resp rel fo n items size →
+        rel = alignStart arch req.start ∧
+        readRange img rel (readSize (specLen req (fnEnd sym))) = .ok fo n ∧
+        chainOk (decAt D (fileBytes file fo n)) arch.adjust (specLen req (fnEnd sym)) 0 items size = true ∧
+        size ≤ n ∧
+        (∀ it ∈ items,
+          (it.inv = false → ∃ len, D (fileBytes file (fo + it.off) (n - it.off)) = .ok len ∧
+              1 ≤ len ∧ it.off + len ≤ n) ∧
+          (it.inv = true → D (fileBytes file (fo + it.off) (n - it.off)) = .invalid ∧
+              it.off + arch.adjust ≤ n ∧
+              shown (fileBytes file fo n) arch.adjust it.off = fileBytes file (fo + it.off) arch.adjust)) ∧
+        (specLen req (fnEnd sym) ≤ size ∨ D (fileBytes file (fo + size) (n - size)) = .exhausted)) ∧
+    queryB arch img sym req D file ≠ .nofuel ∧
+    queryB arch img sym req D file ≠ .panic := by
+  have hadj := adjust_pos arch
+  have key : ∀ fo n, (plan arch img sym req).2.2 = .ok fo n →
+      (fun p => match (plan arch img sym req).2.2 with
+        | .ok fo n => decAt D (fileBytes file fo n) p
+        | _ => .exhausted) = decAt D (fileBytes file fo n) := by
+    intro fo n h
+    funext p
+    rw [h]
+  have hor : ∀ fo n, (plan arch img sym req).2.2 = .ok fo n →
+      OracleOK n (fun p => match (plan arch img sym req).2.2 with
+        | .ok fo n => decAt D (fileBytes file fo n) p
+        | _ => .exhausted) ∧
+      OracleTail arch.adjust n (fun p => match (plan arch img sym req).2.2 with
+        | .ok fo n => decAt D (fileBytes file fo n) p
+        | _ => .exhausted) := by
+    intro fo n h
+    rw [key fo n h]
+    have := decAt_oracle hadj hD (fileBytes file fo n)
+    rwa [fileBytes_length (hfile fo n h)] at this
+  obtain ⟨hq1, hq2, hq3⟩ := C20_query_tail arch img sym req _ hor
+  refine ⟨?_, hq2, hq3⟩
+  intro rel fo n items size hq
+  obtain ⟨hrel, hrd, hc, hf, hall, hcomp⟩ := hq1 rel fo n items size hq
+  have hplan : (plan arch img sym req).2.2 = .ok fo n := by
+    simp only [plan]
+    rw [disasmLen_eq_specLen, ← hrel]
+    exact hrd
+  rw [key fo n hplan] at hc hall
+  simp only [hplan] at hcomp
+  refine ⟨hrel, hrd, hc, hf, ?_, ?_⟩
+  · intro it hit
+    obtain ⟨s, hs, hs1, hw⟩ := hall it hit
+    constructor
+    · intro hi
+      have hd := stepAt_decoded hi hs
+      unfold decAt at hd
+      rw [fileBytes_drop] at hd
+      exact ⟨s, hd, hs1, hw⟩
+    · intro hi
+      obtain ⟨hd, rfl⟩ := stepAt_undecodable hi hs
+      unfold decAt at hd
+      rw [fileBytes_drop] at hd
+      exact ⟨hd, hw, shown_fileBytes file fo n _ _ hw⟩
+  · rcases hcomp with h1 | h2
+    · exact Or.inl h1
+    · right
+      unfold decAt at h2
+      rw [fileBytes_drop] at h2
+      exact h2
+
+/-- **Bytes, declarative form.** The mechanism prefers the containing *segment* for the file offset
+(binary_image.rs:279-294). Whenever segment and section describe the same mapping at the section containing the
+address (`seg.fileOff + (sec.addr − seg.addr) = sec.fileOff`, true of every well-formed object; the judge checks
+it on every case), the bytes read are simply **the bytes of the section that contains the address, from the
+address's offset into the section on, at most to the section's end**: `fileOff = sec.fileOff + (svma − sec.addr)`
+and `n = min size (sec.size − (svma − sec.addr))` — a statement that mentions neither segments nor the order in
+which they are searched. -/
+theorem C20_bytes_section (img : Image) (rel size fileOff n : Nat)
+    (h : readRange img rel size = .ok fileOff n) :
+    ∃ sec, containing img.sections (img.base + rel) = some sec ∧
+      n = min size (sec.size - (img.base + rel - sec.addr)) ∧
+      ((∀ seg, containing img.segments (img.base + rel) = some seg →
+          seg.addr ≤ sec.addr ∧ seg.fileOff + (sec.addr - seg.addr) = sec.fileOff) →
+        fileOff = sec.fileOff + (img.base + rel - sec.addr)) := by
+  obtain ⟨sec, hsec, hn, dl, _, hle, hoff, _⟩ := readRange_ok h
+  obtain ⟨_, hlo, hhi⟩ := containing_some hsec
+  refine ⟨sec, hsec, by omega, ?_⟩
+  intro hcons
+  unfold sourceRegion at hoff hle
+  cases hseg : containing img.segments (img.base + rel) with
+  | none =>
+    rw [hseg] at hoff
+    exact hoff
+  | some seg =>
+    rw [hseg] at hoff hle
+    obtain ⟨h1, h2⟩ := hcons seg hseg
+    simp only at hoff hle
+    omega
+
+/-- **The two matches on the architecture string agree.** `query_api` derives the start alignment
+(mod.rs:124-128) and `decode_arch` the decoder (mod.rs:177-190) from `binary_image.arch()` by two separate
+`match`es; for every string (including the aliases `arm64e`, `x86_64h`, and strings neither knows such as the
+Mach-O names `i386`, `arm64v8`, `armv7`) the alignment used for the start is the instruction alignment of the
+decoder that is chosen (1 when there is none), and the resynchronisation step is a multiple of it. -/
+theorem C20_arch_names_agree (name : Option String) :
+    alignOfName name = (archOfName name).align ∧ (archOfName name).adjust % (archOfName name).align = 0 := by
+  cases name with
+  | none => simp [alignOfName, archOfName, Arch.align, Arch.adjust]
+  | some s =>
+    by_cases h1 : s = "arm64" ∨ s = "arm64e"
+    · rcases h1 with rfl | rfl <;> simp [alignOfName, archOfName, Arch.align, Arch.adjust]
+    · by_cases h2 : s = "arm"
+      · subst h2; simp [alignOfName, archOfName, Arch.align, Arch.adjust]
+      · have h3 : alignOfName (some s) = 1 := by simp [alignOfName, h1, h2]
+        rw [h3]
+        unfold archOfName
+        simp only [h1, h2, if_false]
+        split
+        · simp [Arch.align, Arch.adjust]
+        · split <;> simp [Arch.align, Arch.adjust]
+
+/-- **JITDUMP images** (binary_image.rs:225-241, jitdump.rs:121-134). Whenever the request on a JITDUMP image
+answers with a listing: the start is the aligned start; it lies inside the code bytes of a `JIT_CODE_LOAD`
+record `e` of the dump; the bytes decoded are that record's code bytes from the start's offset in the record on
+(`fo = e.codeOff + (rel − e.relAddr)`), at most the padded length, and **never beyond the end of the record's
+code** (`fo + n ≤ e.codeOff + e.codeLen`: the next record's header is not decoded); the listing is a gap-free
+chain below `specLen` with `size ≤ n`, complete. No panic, no fuel exhaustion. -/
+theorem C20_jit (arch : Arch) (entries : List JitEntry) (fileLen : Nat) (sym : Option Sym) (req : Req)
+    (dec : Nat → Dec)
+    (hor : ∀ fo n, readJit entries fileLen (alignStart arch req.start) (readSize (specLen req (fnEnd sym)))
+        = .ok fo n → OracleOK n dec ∧ OracleTail arch.adjust n dec) :
+    (∀ rel fo n items size, queryJit arch entries fileLen sym req dec = some (.resp rel fo n items size) →
+        rel = alignStart arch req.start ∧
+        (∃ e ∈ entries, e.relAddr ≤ rel ∧ rel < e.relAddr + e.codeLen ∧
+            fo = e.codeOff + (rel - e.relAddr) ∧
+            n = min (readSize (specLen req (fnEnd sym))) (e.codeLen - (rel - e.relAddr)) ∧
+            fo + n ≤ e.codeOff + e.codeLen ∧ fo + n ≤ fileLen) ∧
+        chainOk dec arch.adjust (specLen req (fnEnd sym)) 0 items size = true ∧
+        size ≤ n ∧
+        (specLen req (fnEnd sym) ≤ size ∨ dec size = .exhausted)) ∧
+    queryJit arch entries fileLen sym req dec ≠ some .nofuel ∧
+    queryJit arch entries fileLen sym req dec ≠ some .panic := by
+  have hlen := disasmLen_eq_specLen req (fnEnd sym)
+  have hadj := adjust_pos arch
+  refine ⟨?_, ?_, ?_⟩
+  · intro rel fo n items size hq
+    unfold queryJit at hq
+    simp only [hlen] at hq
+    split at hq <;> try (simp at hq; done)
+    rename_i fo' n' hrd
+    split at hq
+    · simp at hq
+    · split at hq <;> try (simp at hq; done)
+      rename_i items' f' hd
+      simp only [Option.some.injEq, Outcome.resp.injEq] at hq
+      obtain ⟨rfl, rfl, rfl, rfl, rfl⟩ := hq
+      obtain ⟨ho, ht⟩ := hor fo' n' hrd
+      obtain ⟨hc, hf, _, hcomp⟩ := decode_facts ho ht hadj hd
+      exact ⟨rfl, readJit_ok hrd, hc, hf, hcomp⟩
+  · unfold queryJit
+    simp only [hlen]
+    split <;> try simp
+    rename_i fo' n' hrd
+    split
+    · simp
+    · obtain ⟨ho, _⟩ := hor fo' n' hrd
+      have := decode_fuel (decodeLen := specLen req (fnEnd sym)) ho hadj
+      split <;> simp_all
+  · unfold queryJit
+    simp only [hlen]
+    split <;> try simp
+    rename_i fo' n' hrd
+    split
+    · simp
+    · obtain ⟨ho, ht⟩ := hor fo' n' hrd
+      obtain ⟨_, _, _, _, _, hn, _, _⟩ := readJit_ok hrd
+      have hn' : n' ≤ u32max := by have := readSize_le (specLen req (fnEnd sym)); omega
+      have := decode_no_panic_tail (decodeLen := specLen req (fnEnd sym)) ho ht hn'
+      split <;> simp_all
+
+
+/-- **JITDUMP, bytes clause.** With the decoder as a function of bytes and `file` the dump: every row of a
+listing is the decoder's verdict on the dump's bytes from the row's position to the end of what was read, all of
+it inside the code bytes of one `JIT_CODE_LOAD` record (`fo + n ≤ e.codeOff + e.codeLen`); `.byte` rows show the
+dump's bytes at their position; no panic, no fuel exhaustion; only hypothesis: `ByteDecOK`. -/
+theorem C20_jit_bytes (arch : Arch) (entries : List JitEntry) (sym : Option Sym) (req : Req) (D : ByteDec)
+    (file : List UInt8) (hD : ByteDecOK arch.adjust D) :
+    (∀ rel fo n items size, queryJitB arch entries sym req D file = some (.resp rel fo n items size) →
+        rel = alignStart arch req.start ∧
+        (∃ e ∈ entries, e.relAddr ≤ rel ∧ rel < e.relAddr + e.codeLen ∧
+            fo = e.codeOff + (rel - e.relAddr) ∧ fo + n ≤ e.codeOff + e.codeLen) ∧
+        fo + n ≤ file.length ∧ size ≤ n ∧
+        (∀ it ∈ items,
+          (it.inv = false → ∃ len, D (fileBytes file (fo + it.off) (n - it.off)) = .ok len ∧
+              1 ≤ len ∧ it.off + len ≤ n) ∧
+          (it.inv = true → D (fileBytes file (fo + it.off) (n - it.off)) = .invalid ∧
+              it.off + arch.adjust ≤ n ∧
+              shown (fileBytes file fo n) arch.adjust it.off = fileBytes file (fo + it.off) arch.adjust)) ∧
+        (specLen req (fnEnd sym) ≤ size ∨ D (fileBytes file (fo + size) (n - size)) = .exhausted)) ∧
+    queryJitB arch entries sym req D file ≠ some .nofuel ∧
+    queryJitB arch entries sym req D file ≠ some .panic := by
+  have hadj := adjust_pos arch
+  have hlen := disasmLen_eq_specLen req (fnEnd sym)
+  have key : ∀ fo n, readJit entries file.length (alignStart arch req.start)
+        (readSize (specLen req (fnEnd sym))) = .ok fo n →
+      (fun p => match readJit entries file.length (alignStart arch req.start)
+            (readSize (disasmLen req.start req.size req.cont (fnEnd sym))) with
+        | .ok fo n => decAt D (fileBytes file fo n) p
+        | _ => .exhausted) = decAt D (fileBytes file fo n) := by
+    intro fo n h
+    funext p
+    rw [hlen, h]
+  have hor : ∀ fo n, readJit entries file.length (alignStart arch req.start)
+        (readSize (specLen req (fnEnd sym))) = .ok fo n →
+      OracleOK n (fun p => match readJit entries file.length (alignStart arch req.start)
+            (readSize (disasmLen req.start req.size req.cont (fnEnd sym))) with
+        | .ok fo n => decAt D (fileBytes file fo n) p
+        | _ => .exhausted) ∧
+      OracleTail arch.adjust n (fun p => match readJit entries file.length (alignStart arch req.start)
+            (readSize (disasmLen req.start req.size req.cont (fnEnd sym))) with
+        | .ok fo n => decAt D (fileBytes file fo n) p
+        | _ => .exhausted) := by
+    intro fo n h
+    rw [key fo n h]
+    obtain ⟨_, _, _, _, _, _, _, hfl⟩ := readJit_ok h
+    have := decAt_oracle hadj hD (fileBytes file fo n)
+    rwa [fileBytes_length hfl] at this
+  obtain ⟨hq1, hq2, hq3⟩ := C20_jit arch entries file.length sym req _ hor
+  refine ⟨?_, hq2, hq3⟩
+  intro rel fo n items size hq
+  -- the read result, from the definition
+  have hq' := hq
+  unfold queryJitB queryJit at hq'
+  simp only [hlen] at hq'
+  split at hq' <;> try (simp at hq'; done)
+  rename_i fo' n' hrd
+  split at hq'
+  · simp at hq'
+  · split at hq' <;> try (simp at hq'; done)
+    rename_i items' f' hd
+    simp only [Option.some.injEq, Outcome.resp.injEq] at hq'
+    obtain ⟨rfl, rfl, rfl, rfl, rfl⟩ := hq'
+    obtain ⟨e, hmem, hle, hlt, hfo, _, hin, hfl⟩ := readJit_ok hrd
+    simp only [hrd] at hd
+    obtain ⟨_, hf, hrows, hcomp⟩ := decode_file_rows hD hadj hfl hd
+    exact ⟨rfl, ⟨e, hmem, hle, hlt, hfo, hin⟩, hfl, hf, hrows, hcomp⟩
+
+/-- **Fat archive members.** The bytes of a member are the file's bytes from the member's start
+(`MachOFatArchiveMemberData::data()`, macho.rs:495-498), so a range `(fo, n)` read inside a member of size `msize`
+starting at `mstart` is the file range `(mstart + fo, n)`: every statement of `C20_query_bytes` about
+`fileBytes (memberData file mstart msize) …` is a statement about the archive file's bytes at `mstart + …`. -/
+theorem C20_fat_member (file : List UInt8) (mstart msize fo n : Nat) (h : fo + n ≤ msize) :
+    fileBytes (memberData file mstart msize) fo n = fileBytes file (mstart + fo) n :=
+  fileBytes_fileBytes file mstart msize fo n h
+
+/-- **The judge checks the proved statement.** The judge's walker (`C20.walk` in `Iface/C20.lean`: an independent
+re-implementation that walks the implementation's listing and produces the error messages) accepts a listing with
+end `stop` **iff** the listing satisfies `chainOk` — the specification that `C20_offsets` / `C20_query` prove of
+the model — and then the listing has the list-level properties of the statement: first offset 0, strictly
+increasing, each below the limit, each next offset = previous + step of the previous instruction. So a response
+passes clauses 2-4 of the judge exactly when it has the property the theorems are about, for every oracle. -/
+theorem C20_judge_walk_iff (dec : Nat → Dec) (adjust limit : Nat) (items : List Item) (stop : Nat) :
+    (C20.walk dec adjust limit none items = .ok stop ↔ chainOk dec adjust limit 0 items stop = true) ∧
+    (C20.walk dec adjust limit none items = .ok stop →
+      (∀ a, items.head? = some a → a.off = 0) ∧
+      items.Pairwise (fun a b => a.off < b.off) ∧
+      (∀ it ∈ items, it.off < limit) ∧
+      (∀ i a b, items[i]? = some a → items[i + 1]? = some b →
+          ∃ s, stepAt dec adjust a = some s ∧ b.off = a.off + s)) := by
+  have hs := C20.walk_sound dec adjust limit items none stop
+  have hc := C20.walk_complete dec adjust limit items none stop
+  simp only [C20.expectedNext] at hs hc
+  refine ⟨⟨hs, hc⟩, ?_⟩
+  intro h
+  have hch := hs h
+  refine ⟨?_, chain_pairwise _ _ _ hch, fun it hit => ((chain_bounds _ _ _ hch).2 it hit).2,
+    chain_consecutive _ _ _ hch⟩
+  intro a ha
+  cases items with
+  | nil => simp at ha
+  | cons it rest =>
+    simp only [List.head?_cons, Option.some.injEq] at ha
+    subst ha
+    exact (chain_cons hch).1
+
+/-- **The judge's oracle check discharges the oracle assumptions.** Every case carries the decoder oracle as a
+table; the judge evaluates `tableOk` on it (clause 0, reason "assumption violated"). When that check passes, the
+oracle the model and the judge use for the case (`decOfTable`, = `C20.Case.dec`) satisfies `OracleOK` and
+`OracleTail`, i.e. the hypotheses of `C20_query_tail` hold for that case — so for every case the check lets
+through, the conclusions of `C20_query_tail` hold of the model's answer with no assumption left. -/
+theorem C20_table_oracle (adjust n : Nat) (tab : List Dec) (h : tableOk adjust n tab 0 = true) :
+    OracleOK n (decOfTable tab) ∧ OracleTail adjust n (decOfTable tab) :=
+  tableOk_oracle h
 
 /-! ### The repaired defect (2d669439): the pre-fix `size` came from the re-created reader -/
 
@@ -260,3 +640,63 @@ example : query .arm C20_img (some ⟨0x1000, some 13⟩) ⟨0x1001, 4, true⟩ 
     = .resp 0x1000 0x1000 27 [⟨0, false⟩, ⟨2, false⟩, ⟨6, true⟩, ⟨8, false⟩] 12 := by decide +kernel
 
 example : specLen ⟨0x1001, 4, true⟩ (fnEnd (some ⟨0x1000, some 13⟩)) = 12 := by decide
+
+/-! ### Non-vacuity of the improvement-round theorems -/
+
+/-- why `OracleTail` is needed: `OracleOK` alone lets the response claim 4 bytes of a 1-byte slice -/
+example : decode 4 4 1 (fun p => if p = 0 then .invalid else .exhausted) = .done [⟨0, true⟩] 4 := by decide
+
+/-- a byte-level thumb-like decoder: halfword `0xbf00`-style 2-byte instructions when the low byte is even,
+4-byte ones when the first byte is `0xf0`, anything else undecodable; fewer than the needed bytes: exhausted -/
+def C20_byteDec : ByteDec
+  | [] => .exhausted
+  | [_] => .exhausted
+  | a :: _ :: rest =>
+    if a = 0xf0 then (if rest.length < 2 then .exhausted else .ok 4)
+    else if a % 2 = 0 then .ok 2 else .invalid
+
+example : ByteDecOK 2 C20_byteDec := by
+  intro bs
+  match bs with
+  | [] => simp [C20_byteDec]
+  | [_] => simp [C20_byteDec]
+  | a :: b :: rest =>
+    simp only [C20_byteDec, List.length_cons]
+    constructor
+    · intro len h
+      split at h
+      · split at h
+        · simp at h
+        · simp only [Dec.ok.injEq] at h; omega
+      · split at h
+        · simp only [Dec.ok.injEq] at h; omega
+        · simp at h
+    · intro _; omega
+
+/-- a 0x40-byte file whose bytes `0x20..` are code; one-section image mapping address `0x1000` to file offset
+`0x20`; the listing of a whole request over the byte-level decoder -/
+def C20_file : List UInt8 :=
+  List.replicate 0x20 0 ++ [0x00, 0xbf, 0xf0, 0x00, 0x00, 0xf8, 0x01, 0x00, 0x70, 0x47] ++ List.replicate 0x16 0xff
+
+def C20_img2 : Image :=
+  { base := 0, sections := [⟨0x1000, 10, 0x20, some 10⟩], segments := [] }
+
+example : queryB .arm C20_img2 none ⟨0x1001, 9, false⟩ C20_byteDec C20_file
+    = .resp 0x1000 0x20 10 [⟨0, false⟩, ⟨2, false⟩, ⟨6, true⟩, ⟨8, false⟩] 10 := by decide +kernel
+
+example : (plan .arm C20_img2 none ⟨0x1001, 9, false⟩).2.2 = .ok 0x20 10 ∧ 0x20 + 10 ≤ C20_file.length := by
+  decide +kernel
+
+/-- a JITDUMP index with two records; a request inside the second one, continuation to its end -/
+example : queryJit .arm [⟨0, 0x100, 8⟩, ⟨8, 0x200, 14⟩] 0x300 (some ⟨8, some 14⟩) ⟨9, 2, true⟩ C20_thumbDec
+    = some (.resp 8 0x200 14 [⟨0, false⟩, ⟨2, false⟩, ⟨6, true⟩, ⟨8, false⟩, ⟨12, false⟩] 14) := by decide +kernel
+
+example : archOfName (some "arm64e") = .a64 ∧ archOfName (some "x86_64h") = .x64 ∧
+    archOfName (some "arm64v8") = .unknown ∧ archOfName (some "i386") = .unknown := by
+  simp [archOfName]
+
+/-- the same bytes as one `JIT_CODE_LOAD` record of a dump, byte-level decoder -/
+example : queryJitB .arm [⟨0, 0x20, 10⟩] none ⟨1, 9, false⟩ C20_byteDec C20_file
+    = some (.resp 0 0x20 10 [⟨0, false⟩, ⟨2, false⟩, ⟨6, true⟩, ⟨8, false⟩] 10) := by decide +kernel
+
+example : fileBytes (memberData C20_file 0x20 10) 2 4 = [0xf0, 0x00, 0x00, 0xf8] := by decide +kernel
